@@ -7,7 +7,7 @@ VERIF = os.path.dirname(os.path.dirname(os.path.abspath(__file__)))
 ids = [json.loads(l)["id"] for l in open(os.path.join(VERIF, "properties.jsonl"))]
 checks = []
 for pid in ids:
-    if pid not in registry.PROPS:
+    if pid not in registry.PROPS or registry.PROPS[pid].get('level_text') == 'wip':
         continue
     s = registry.PROPS[pid]
     checks.append({
@@ -22,7 +22,7 @@ for pid in ids:
         "technique": s.get("technique", "Lean 4 theorems (induction/invariants over a hand-written executable model) + differential correspondence check model vs. real code"),
     })
 na = [{"property_id": pid, "reason": registry.NOT_APPLICABLE.get(pid, "not claimed yet: model, correspondence and theorems for this property are still being built (see DESIGN.md §10)")}
-      for pid in ids if pid not in registry.PROPS]
+      for pid in ids if pid not in registry.PROPS or registry.PROPS[pid].get('level_text') == 'wip']
 m = {
     "version": 1,
     "setup_cmd": "cd /verif && python3 tools/setup.py",
